@@ -6,7 +6,7 @@ use rpgp_verif::engine::{self, run, Ctx, ReplayReq, Tier};
 static GLOBAL: rpgp_verif::engine::alloc::Counting = rpgp_verif::engine::alloc::Counting;
 
 fn usage() -> ! {
-    eprintln!("usage: vcheck <C01..C19> quick|thorough | vcheck <ID> replay <file>");
+    eprintln!("usage: vcheck <C01..C19> quick|thorough | vcheck <ID> replay <file> | vcheck <ID> groups");
     std::process::exit(2)
 }
 
@@ -47,6 +47,7 @@ fn main() {
                 Some(ReplayReq { group: v["group"].as_str().unwrap_or("").to_string(), tape }),
             )
         }
+        "groups" => (Tier::Thorough, None),
         "worker" => {
             let tier = if args.get(3).map(|s| s.as_str()) == Some("thorough") { Tier::Thorough } else { Tier::Quick };
             (tier, None)
@@ -69,6 +70,12 @@ fn main() {
     let known = engine::load_known(&root);
     let mut ctx = Ctx::new(prop, tier, seed, root, known, replay);
     ctx.worker = worker;
+    if args[2] == "groups" {
+        // list the groups of this property (used by tools/fuzz_slice.sh)
+        ctx.list_groups = true;
+        runner(&ctx);
+        std::process::exit(0);
+    }
     runner(&ctx);
     if ctx.worker.is_some() {
         // the worker's group was not reached (should not happen)
